@@ -51,10 +51,10 @@ def handle : List String → String
           | .fail .alloc => true
           | _ => false
         if !isAlloc [] then "none"
+        else if isAlloc [.slice, .varArray, .dims] then "split"
         else if isAlloc [.varArray, .dims, .split] then "slice"
         else if isAlloc [.slice, .dims, .split] then "vararray"
         else if isAlloc [.slice, .varArray, .split] then "dims"
-        else if isAlloc [.slice, .varArray, .dims] then "split"
         else "mixed"
       | none => "bad-hex"
     | _, _, _ => "bad-op"
